@@ -883,7 +883,7 @@ def run_worlds(unit_name, worlds, res):
         for key, item in first.items():        # one entry per world and class of failure
             by_key.setdefault(key, []).append(item)
     for key, lst in sorted(by_key.items()):
-        if len(res.violations) >= 5:
+        if len(res.violations) >= 25:
             break
         lst.sort(key=lambda x: (sum(c for _, c in x[0]["molecules"]), len(repr(x[0]))))
         w, what, detail = lst[0]
@@ -907,7 +907,7 @@ def first_resname(mollist):
     return TYPES[mollist[0][0]]["res"][0][0]
 
 
-def c03_options(mollist, full):
+def c03_options(mollist):
     """option sets that make sense for this topology"""
     mols = expand(mollist)
     ntot = sum(len(m["blocks"]) for m in mols)
@@ -950,19 +950,19 @@ def run_c03(ctx, res):
                 [["BR", 1], ["W", 2]], [["R6", 1], ["MX", 1]], [["PU", 1]], [["W", 2], ["PU", 1]], [["PU", 2], ["PA", 1]]]
     topologies += repeated
     full_on = [[["PA", 2], ["W", 3]], [["W", 2], ["PV", 1], ["PD", 1]], [["PD", 1]]]
-    nseeds = 2 if not ctx.thorough else 4
+    nseeds = 2 if not ctx.thorough else 6
     seeds = seeds_for(ctx, nseeds)
     worlds = []
     nopt = 0
     for ml in full_on:
-        opts = c03_options(ml, True)
+        opts = c03_options(ml)
         nopt = max(nopt, len(opts))
         for i, o in enumerate(opts):
             for s in (seeds if ctx.thorough else seeds[:1]):
                 worlds.append(dict(o, unit="c03", molecules=ml, seed=s + i % 3))
     per_top = 2 if not ctx.thorough else 8
     for ti, ml in enumerate(topologies):
-        opts = c03_options(ml, False)
+        opts = c03_options(ml)
         for j in range(per_top):
             o = opts[(ti * 17 + j * 101) % len(opts)]
             worlds.append(dict(o, unit="c03", molecules=ml, seed=seeds[(ti + j) % nseeds]))
@@ -1005,7 +1005,7 @@ def res_subsets(mollist, maxn=2):
 
 
 def run_c04(ctx, res):
-    nseeds = 2 if not ctx.thorough else 5
+    nseeds = 2 if not ctx.thorough else 8
     seeds = seeds_for(ctx, nseeds)
     worlds = []
     n_split = n_ign = n_sched = 0
@@ -1069,7 +1069,7 @@ def run_c04(ctx, res):
 # --------------------------------------------------------------------------------------------------------------
 
 def run_c05(ctx, res):
-    nseeds = 2 if not ctx.thorough else 5
+    nseeds = 2 if not ctx.thorough else 10
     seeds = seeds_for(ctx, nseeds)
     systems = [[["C8", 2]], [["BR", 1], ["W", 2]], [["R6", 1], ["MX", 1]], [["MX", 2], ["W", 1]], [["PV", 1], ["PD", 1], ["C8", 1]]]
     boxes = [[3.0, 3.0, 3.0], [2.4, 3.0, 3.6], [1.7, 1.7, 1.7]]
@@ -1115,7 +1115,7 @@ def run_c05(ctx, res):
 # --------------------------------------------------------------------------------------------------------------
 
 def run_c07(ctx, res):
-    nseeds = 3 if not ctx.thorough else 8
+    nseeds = 3 if not ctx.thorough else 12
     seeds = seeds_for(ctx, nseeds)
     worlds = []
     box = [4.0, 4.0, 4.0]
